@@ -2,6 +2,7 @@
    For all shapes (any nesting; nested boxed / ref / retrying members contribute their leaves to the sort,
    an owned collection is ordered as one unit), all listing orders, both modes and any address assignment. *)
 From HL Require Import Base Model Shape Algo Api Lemmas ShapeLemmas SortLemmas Check Monitors Pf_C07 Pf_C08.
+From HL Require Import Conc OpsLemmas Pf_C01 Wp WpAlgo WpApi WpMain.
 
 (* the sorted cache does not depend on the order in which the user listed the members *)
 Theorem C08_sort_perm_invariant :
@@ -40,6 +41,48 @@ Example C08_example_runs :
   blk_locks (co_evs (nth 1 (model_obs ex08) (mkco 0 ROk [] [] [] true))) = [3; 4; 1; 2; 0].
 Proof. vm_compute. auto. Qed.
 
+
+(* ---------------------------------------------------------------- every schedule (interleaved model)
+   One order, fixed by the scenario's addresses ([rk_of]: the address of the outermost object a lock is reached through,
+   then its position inside), governs every blocking acquisition of every thread in every state reached under every
+   schedule: a thread that waits for l holds only locks below l.  Hence no two threads can ever be found taking two
+   locks in opposite orders — whatever the listing orders, nestings, kinds and modes of the collections they go through
+   (corollaries of the schedule invariant of WpMain.v). *)
+Theorem C08_every_schedule_one_order :
+  forall b sched t l l', wfB b = true ->
+  let sc := bs_sc b in
+  let s := fst (run_sched (bs_wp b) (sc_env sc) (sc_nlocks sc) (binit b) sched) in
+  live s t -> waits_for (bs_wp b) s t l -> holds (sc_nlocks sc) (b_w s) t l' -> rk_of sc l' < rk_of sc l.
+Proof.
+  intros b sched t l l' Hwf sc s Hl Hw Hh.
+  pose proof (every_schedule_stable_dec b sched Hwf) as St. cbv zeta in St.
+  exact (ss_rank _ _ _ _ _ St t l l' Hl Hw Hh).
+Qed.
+
+Theorem C08_every_schedule_no_opposite_orders :
+  forall b sched t1 t2 l m, wfB b = true ->
+  let sc := bs_sc b in
+  let s := fst (run_sched (bs_wp b) (sc_env sc) (sc_nlocks sc) (binit b) sched) in
+  live s t1 -> live s t2 ->
+  waits_for (bs_wp b) s t1 l -> holds (sc_nlocks sc) (b_w s) t1 m ->
+  waits_for (bs_wp b) s t2 m -> holds (sc_nlocks sc) (b_w s) t2 l -> False.
+Proof.
+  intros b sched t1 t2 l m Hwf sc s H1 H2 Hw1 Hh1 Hw2 Hh2.
+  pose proof (C08_every_schedule_one_order b sched t1 l m Hwf H1 Hw1 Hh1) as A.
+  pose proof (C08_every_schedule_one_order b sched t2 m l Hwf H2 Hw2 Hh2) as B.
+  cbv zeta in A, B. lia.
+Qed.
+
+Check C08_every_schedule_no_opposite_orders :
+  forall b sched t1 t2 l m, wfB b = true ->
+  let sc := bs_sc b in
+  let s := fst (run_sched (bs_wp b) (sc_env sc) (sc_nlocks sc) (binit b) sched) in
+  live s t1 -> live s t2 ->
+  waits_for (bs_wp b) s t1 l -> holds (sc_nlocks sc) (b_w s) t1 m ->
+  waits_for (bs_wp b) s t2 m -> holds (sc_nlocks sc) (b_w s) t2 l -> False.
+
 Print Assumptions C08_sort_perm_invariant.
 Print Assumptions C08_common_same_order.
 Print Assumptions C08_monitor.
+Print Assumptions C08_every_schedule_one_order.
+Print Assumptions C08_every_schedule_no_opposite_orders.
